@@ -34,6 +34,7 @@ static std::atomic<long long> g_clock{1700000000000000000LL};
 static std::atomic<long long> g_clock0{1700000000000000000LL};
 static std::atomic<long long> g_mono_base{0};
 static std::atomic<bool> g_mono_on{false};
+static std::atomic<long long> g_stop_tick{0};
 
 struct Worker;
 static thread_local Worker* tl_worker = nullptr;
@@ -72,6 +73,8 @@ extern "C" int clock_gettime(clockid_t id, struct timespec* ts) noexcept
     return 0;
   }
   if (id != CLOCK_REALTIME) return real(id, ts);
+  // inside the stop command real time passes while the drain loop spins: d ticks per look at the clock
+  if (!tl_worker && g_stop_tick.load()) g_clock.fetch_add(g_stop_tick.load());
   long long now = g_clock.load();
   ts->tv_sec = now / 1000000000LL;
   ts->tv_nsec = now % 1000000000LL;
@@ -102,6 +105,18 @@ extern "C" int clock_nanosleep(clockid_t id, int flags, const struct timespec* r
   if (park_sleep() == 0) return 0;
   return real(id, flags, req, rem);
 }
+
+// ------------------------------------------------------------------ BackendWorker::_exit (private) for the stop command
+// explicit instantiation may name private members: the standard way to reach them without touching the class
+static quill::detail::BackendWorker*& verif_backend_worker(quill::ManualBackendWorker& m);
+static void verif_backend_exit(quill::detail::BackendWorker& b);
+template <auto Member, auto Exit>
+struct VerifAccess
+{
+  friend quill::detail::BackendWorker*& verif_backend_worker(quill::ManualBackendWorker& m) { return m.*Member; }
+  friend void verif_backend_exit(quill::detail::BackendWorker& b) { (b.*Exit)(); }
+};
+template struct VerifAccess<&quill::ManualBackendWorker::_backend_worker, &quill::detail::BackendWorker::_exit>;
 
 // ------------------------------------------------------------------ observation stream
 static std::vector<u64> g_obs;
@@ -409,7 +424,7 @@ static size_t parse_simple(std::vector<u64> const& l, size_t i, size_t end, std:
   while (i < end)
   {
     u64 c = l[i];
-    size_t n = (c == 1 || c == 2) ? 6 : (c == 3 || c == 5 || c == 8) ? 1 : (c == 4 || c == 12) ? 4 : (c == 6 || c == 7 || c == 13 || c == 14) ? 2 : (c == 10) ? 0 : (c == 11) ? 6 : 999;
+    size_t n = (c == 1 || c == 2) ? 6 : (c == 3 || c == 5 || c == 8) ? 1 : (c == 4 || c == 12) ? 4 : (c == 6 || c == 7 || c == 13 || c == 14 || c == 15) ? 2 : (c == 10) ? 0 : (c == 11) ? 6 : 999;
     if (n == 999 || i + 1 + n > end) break;
     out.push_back({c, std::vector<u64>(l.begin() + i + 1, l.begin() + i + 1 + n)});
     i += 1 + n;
@@ -505,6 +520,18 @@ static void exec_simple(Cmd const& c)
   {
     try { g_sinks[a[0]]->add_filter(std::make_unique<ModFilter>("mod" + std::to_string(a[1]), a[1])); }
     catch (std::exception const&) {}
+    break;
+  }
+  case 15:
+  {
+    // Backend::stop() as the backend thread sees it: BackendWorker::_exit() (wait_for_queues_to_empty_before_exit is on),
+    // wrapped as in BackendWorker::run; the virtual clock moves a[0] ticks per look of the drain loop at the clock
+    g_stop_tick.store(static_cast<long long>(a[0]));
+    try { verif_backend_exit(*verif_backend_worker(*g_backend)); }
+    catch (std::exception const& e) { notifier(e.what()); }
+    catch (...) { notifier("Caught unhandled exception."); }
+    g_stop_tick.store(0);
+    obs({5, 1});
     break;
   }
   case 5: quit_worker(a[0]); g_dead[a[0]] = true; obs({5, 1}); break;
